@@ -19,23 +19,29 @@ from collections import Counter
 
 from vf.runner import NPROC, HarnessError, jdump
 
-_DRV = None
+_DRIVERS = {}
+_POOL = None
 
 
-def _init(modname, attr, args):
-    global _DRV
+def _quiet():
     if mp.current_process().name != 'MainProcess' and os.environ.get('VERIF_WORKER_STDOUT') != '1':
         devnull = os.open(os.devnull, os.O_WRONLY)
         os.dup2(devnull, 1)
-    mod = importlib.import_module(modname)
-    _DRV = getattr(mod, attr)(*args)
 
 
-def _build(history):
+def _driver(ref, args):
+    k = (tuple(ref), tuple(args))
+    if k not in _DRIVERS:
+        mod = importlib.import_module(ref[0])
+        _DRIVERS[k] = getattr(mod, ref[1])(*args)
+    return _DRIVERS[k]
+
+
+def _build(ref, args, history):
     import traceback
 
     try:
-        r = _DRV.build(history)
+        r = _driver(ref, args).build(history)
     except HarnessError:
         raise
     except Exception:
@@ -44,8 +50,39 @@ def _build(history):
     return r
 
 
-def _build_chunk(hs):
-    return [_build(h) for h in hs]
+def pool():
+    """One long-lived pool of forked workers per check process: drivers (and whatever they
+    memoise, e.g. reference results) are created once per worker and reused across BFS levels."""
+    global _POOL
+    if _POOL is None:
+        from concurrent.futures import ProcessPoolExecutor
+
+        _POOL = ProcessPoolExecutor(max_workers=NPROC, mp_context=mp.get_context('fork'), initializer=_quiet)
+    return _POOL
+
+
+def _map(ref, args, cands):
+    from concurrent.futures import as_completed
+    from concurrent.futures.process import BrokenProcessPool
+
+    global _POOL
+    csz = max(1, min(8, len(cands) // (NPROC * 3) or 1))
+    chunks = [cands[i : i + csz] for i in range(0, len(cands), csz)]
+    ex = pool()
+    out = []
+    try:
+        futs = [ex.submit(_build_chunk, (ref, args, ch)) for ch in chunks]
+        for f in as_completed(futs):
+            out.extend(f.result())
+    except BrokenProcessPool as e:
+        _POOL = None
+        raise HarnessError(f'a worker process died while replaying histories: {e}') from e
+    return out
+
+
+def _build_chunk(a):
+    ref, args, hs = a
+    return [_build(ref, args, h) for h in hs]
 
 
 def explore(driver_ref, driver_args, depth, dedup=True, seed=0, max_states=None, label=''):
@@ -53,11 +90,11 @@ def explore(driver_ref, driver_args, depth, dedup=True, seed=0, max_states=None,
 
     Returns dict(states, transitions, traces, max_depth, frontier_exhausted, outcomes,
     violations, samples, capped)."""
-    modname, attr = driver_ref
-    _init(modname, attr, driver_args)  # parent keeps a driver for enabled()/initial model
-    drv = _DRV
+    ref = tuple(driver_ref)
+    args = tuple(driver_args)
+    drv = _driver(ref, args)  # the parent only uses enabled(); histories are replayed in workers
     rng = random.Random(seed)
-    root = _build([])
+    root = _map(ref, args, [[]])[0]
     if 'harness_error' in root:
         raise HarnessError(root['harness_error'])
     seen = {jdump(root['key'])}
@@ -70,8 +107,6 @@ def explore(driver_ref, driver_args, depth, dedup=True, seed=0, max_states=None,
     maxd = 0
     capped = False
     exhausted = False
-    from vf.runner import pool_map
-
     if True:
         for d in range(1, depth + 1):
             cands = []
@@ -82,9 +117,7 @@ def explore(driver_ref, driver_args, depth, dedup=True, seed=0, max_states=None,
                 exhausted = True
                 break
             rng.shuffle(cands)  # seed permutes traversal order only
-            csz = max(1, len(cands) // (NPROC * 4))
-            chunks = [cands[i : i + csz] for i in range(0, len(cands), csz)]
-            results = pool_map(_build_chunk, chunks, NPROC, _init, (modname, attr, driver_args), flatten=True)
+            results = _map(ref, args, cands)
             results.sort(key=lambda r: jdump(r['history']))
             nxt = []
             for r in results:
@@ -133,9 +166,7 @@ def explore(driver_ref, driver_args, depth, dedup=True, seed=0, max_states=None,
 
 
 def replay(driver_ref, case):
-    modname, attr = driver_ref
-    _init(modname, attr, tuple(case['args']))
-    r = _build(case['history'])
+    r = _build(tuple(driver_ref), tuple(case['args']), case['history'])
     if 'harness_error' in r:
         raise HarnessError(r['harness_error'])
     return r['violations']
